@@ -6,9 +6,10 @@ import (
 	"errors"
 	"fmt"
 	"net/url"
+	"regexp"
 	"sort"
+	"strconv"
 	"strings"
-	"sync" // nosim
 	"time"
 
 	"verifsim/simnet"
@@ -90,7 +91,7 @@ func c15GenScenario(w *simrt.Stream, i int) c15Scenario {
 	return sc
 }
 
-func c15YAML(scs []c15Scenario, rows int, plainPost bool) (string, string) {
+func c15YAML(scs []c15Scenario, rows int, plainPost bool, funcs bool, listTempl string) (string, string) {
 	var csv strings.Builder
 	csv.WriteString("id,name\n")
 	for r := 0; r < rows; r++ {
@@ -98,6 +99,9 @@ func c15YAML(scs []c15Scenario, rows int, plainPost bool) (string, string) {
 	}
 	var b strings.Builder
 	b.WriteString("variable_sources:\n  - name: users\n    type: file/csv\n    file: /ammo/users.csv\n    fields: [id, name]\n    ignore_first_line: true\n    delimiter: ','\n")
+	if funcs {
+		b.WriteString("  - name: global\n    type: variables\n    variables:\n      host: glob.example\n      max: 500\n      fixed: 'randInt(1000, 2000)'\n      pick: 'randString(6, qrs)'\n")
+	}
 	b.WriteString("calls: [ ]\nrequests:\n")
 	for i := range scs {
 		p := fmt.Sprintf("s%d", i)
@@ -105,13 +109,25 @@ func c15YAML(scs []c15Scenario, rows int, plainPost bool) (string, string) {
 		fmt.Fprintf(&b, "    body: '{\"uid\": {{.request.%s_auth.preprocessor.uid}}}'\n    preprocessor:\n      mapping:\n        uid: source.users[next].id\n", p)
 		fmt.Fprintf(&b, "    postprocessors:\n      - type: var/jsonpath\n        mapping:\n          token: $.token\n      - type: var/header\n        mapping:\n          trace: X-Trace\n      - type: assert/response\n        status_code: 200\n")
 		fmt.Fprintf(&b, "  - name: %s_list\n    method: GET\n    uri: '/%s/list?t={{.request.%s_auth.postprocessor.token}}'\n    tag: l%d\n    headers:\n      Authorization: 'Bearer {{.request.%s_auth.postprocessor.token}}'\n      X-Trace-Echo: '{{.request.%s_auth.postprocessor.trace}}'\n", p, p, p, i, p, p)
+		if listTempl != "" {
+			fmt.Fprintf(&b, "    templater:\n      type: %s\n", listTempl)
+		}
 		fmt.Fprintf(&b, "    postprocessors:\n      - type: var/jsonpath\n        mapping:\n          items: $.items\n      - type: assert/response\n        status_code: 200\n")
 		fmt.Fprintf(&b, "  - name: %s_order\n    method: POST\n    uri: '/%s/order?t={{.request.%s_auth.postprocessor.token}}'\n    tag: o%d\n    headers:\n      Content-Type: application/json\n", p, p, p, i)
 		fmt.Fprintf(&b, "    body: '{\"item\": {{.request.%s_order.preprocessor.item}}}'\n    preprocessor:\n      mapping:\n        item: request.%s_list.postprocessor.items[next]\n    postprocessors:\n      - type: assert/response\n        status_code: 200\n", p, p)
 		fmt.Fprintf(&b, "  - name: %s_plain\n    method: GET\n    uri: '/%s/plain?t={{.request.%s_auth.postprocessor.token}}'\n    tag: p%d\n    headers:\n      X-Trace-Echo: '{{.request.%s_auth.postprocessor.trace}}'\n", p, p, p, i, p)
 		// data-source rows by position: the first, the last (by number and by [last]), a random one
 		fmt.Fprintf(&b, "      X-First: '{{.request.%s_plain.preprocessor.first}}'\n      X-Last: '{{.request.%s_plain.preprocessor.last}}'\n      X-LastN: '{{.request.%s_plain.preprocessor.lastn}}'\n      X-Rand: '{{.request.%s_plain.preprocessor.rnd}}'\n", p, p, p, p)
+		if funcs {
+			// the documented randomisation functions, in templates and in the preprocessor, and a `variables` source
+			b.WriteString("      X-Uuid: '{{ uuid }}'\n      X-Rand-Int: '{{ randInt 100 200 }}'\n      X-Rand-Int1: '{{ randInt 7 }}'\n      X-Rand-Int0: '{{ randInt }}'\n      X-Rand-Str: '{{ randString 5 \"abc\" }}'\n      X-Rand-Src: '{{ randInt 300 .source.global.max }}'\n")
+			b.WriteString("      X-Glob-Host: '{{.source.global.host}}'\n      X-Glob-Fixed: '{{.source.global.fixed}}'\n      X-Glob-Pick: '{{.source.global.pick}}'\n")
+			fmt.Fprintf(&b, "      X-Pre-Int: '{{.request.%s_plain.preprocessor.rint}}'\n      X-Pre-Str: '{{.request.%s_plain.preprocessor.rstr}}'\n      X-Pre-Uuid: '{{.request.%s_plain.preprocessor.ruuid}}'\n", p, p, p)
+		}
 		fmt.Fprintf(&b, "    preprocessor:\n      mapping:\n        first: source.users[0].name\n        last: source.users[last].name\n        lastn: source.users[%d].name\n        rnd: source.users[rand].name\n", rows-1)
+		if funcs {
+			b.WriteString("        rint: randInt(10, 20)\n        rstr: randString(4, xy)\n        ruuid: uuid()\n")
+		}
 		if plainPost {
 			b.WriteString("    postprocessors:\n      - type: assert/response\n        status_code: 200\n")
 		}
@@ -128,20 +144,36 @@ func c15YAML(scs []c15Scenario, rows int, plainPost bool) (string, string) {
 }
 
 // c15HCL renders the same description in HCL.
-func c15HCL(scs []c15Scenario, rows int, plainPost bool) string {
+func c15HCL(scs []c15Scenario, rows int, plainPost bool, funcs bool, listTempl string) string {
 	var b strings.Builder
 	b.WriteString("variable_source \"users\" \"file/csv\" {\n  file              = \"/ammo/users.csv\"\n  fields            = [\"id\", \"name\"]\n  ignore_first_line = true\n  delimiter         = \",\"\n}\n")
+	if funcs {
+		b.WriteString("variable_source \"global\" \"variables\" {\n  variables = {\n    host  = \"glob.example\"\n    max   = 500\n    fixed = \"randInt(1000, 2000)\"\n    pick  = \"randString(6, qrs)\"\n  }\n}\n")
+	}
 	for i := range scs {
 		p := fmt.Sprintf("s%d", i)
 		fmt.Fprintf(&b, "request \"%s_auth\" {\n  method = \"POST\"\n  uri    = \"/%s/auth\"\n  tag    = \"a%d\"\n  headers = {\n    Content-Type = \"application/json\"\n  }\n  body = <<EOF\n{\"uid\": {{.request.%s_auth.preprocessor.uid}}}\nEOF\n", p, p, i, p)
 		b.WriteString("  preprocessor {\n    mapping = {\n      uid = \"source.users[next].id\"\n    }\n  }\n")
 		b.WriteString("  postprocessor \"var/jsonpath\" {\n    mapping = {\n      token = \"$.token\"\n    }\n  }\n  postprocessor \"var/header\" {\n    mapping = {\n      trace = \"X-Trace\"\n    }\n  }\n  postprocessor \"assert/response\" {\n    status_code = 200\n  }\n}\n")
 		fmt.Fprintf(&b, "request \"%s_list\" {\n  method = \"GET\"\n  uri    = \"/%s/list?t={{.request.%s_auth.postprocessor.token}}\"\n  tag    = \"l%d\"\n  headers = {\n    Authorization = \"Bearer {{.request.%s_auth.postprocessor.token}}\"\n    X-Trace-Echo  = \"{{.request.%s_auth.postprocessor.trace}}\"\n  }\n", p, p, p, i, p, p)
+		if listTempl != "" {
+			fmt.Fprintf(&b, "  templater {\n    type = \"%s\"\n  }\n", listTempl)
+		}
 		b.WriteString("  postprocessor \"var/jsonpath\" {\n    mapping = {\n      items = \"$.items\"\n    }\n  }\n  postprocessor \"assert/response\" {\n    status_code = 200\n  }\n}\n")
 		fmt.Fprintf(&b, "request \"%s_order\" {\n  method = \"POST\"\n  uri    = \"/%s/order?t={{.request.%s_auth.postprocessor.token}}\"\n  tag    = \"o%d\"\n  headers = {\n    Content-Type = \"application/json\"\n  }\n  body = <<EOF\n{\"item\": {{.request.%s_order.preprocessor.item}}}\nEOF\n", p, p, p, i, p)
 		fmt.Fprintf(&b, "  preprocessor {\n    mapping = {\n      item = \"request.%s_list.postprocessor.items[next]\"\n    }\n  }\n  postprocessor \"assert/response\" {\n    status_code = 200\n  }\n}\n", p)
-		fmt.Fprintf(&b, "request \"%s_plain\" {\n  method = \"GET\"\n  uri    = \"/%s/plain?t={{.request.%s_auth.postprocessor.token}}\"\n  tag    = \"p%d\"\n  headers = {\n    X-Trace-Echo = \"{{.request.%s_auth.postprocessor.trace}}\"\n    X-First      = \"{{.request.%s_plain.preprocessor.first}}\"\n    X-Last       = \"{{.request.%s_plain.preprocessor.last}}\"\n    X-LastN      = \"{{.request.%s_plain.preprocessor.lastn}}\"\n    X-Rand       = \"{{.request.%s_plain.preprocessor.rnd}}\"\n  }\n", p, p, p, i, p, p, p, p, p)
-		fmt.Fprintf(&b, "  preprocessor {\n    mapping = {\n      first = \"source.users[0].name\"\n      last  = \"source.users[last].name\"\n      lastn = \"source.users[%d].name\"\n      rnd   = \"source.users[rand].name\"\n    }\n  }\n", rows-1)
+		fmt.Fprintf(&b, "request \"%s_plain\" {\n  method = \"GET\"\n  uri    = \"/%s/plain?t={{.request.%s_auth.postprocessor.token}}\"\n  tag    = \"p%d\"\n  headers = {\n    X-Trace-Echo = \"{{.request.%s_auth.postprocessor.trace}}\"\n    X-First      = \"{{.request.%s_plain.preprocessor.first}}\"\n    X-Last       = \"{{.request.%s_plain.preprocessor.last}}\"\n    X-LastN      = \"{{.request.%s_plain.preprocessor.lastn}}\"\n    X-Rand       = \"{{.request.%s_plain.preprocessor.rnd}}\"\n", p, p, p, i, p, p, p, p, p)
+		if funcs {
+			b.WriteString("    X-Uuid       = \"{{ uuid }}\"\n    X-Rand-Int   = \"{{ randInt 100 200 }}\"\n    X-Rand-Int1  = \"{{ randInt 7 }}\"\n    X-Rand-Int0  = \"{{ randInt }}\"\n    X-Rand-Str   = \"{{ randString 5 \\\"abc\\\" }}\"\n    X-Rand-Src   = \"{{ randInt 300 .source.global.max }}\"\n")
+			b.WriteString("    X-Glob-Host  = \"{{.source.global.host}}\"\n    X-Glob-Fixed = \"{{.source.global.fixed}}\"\n    X-Glob-Pick  = \"{{.source.global.pick}}\"\n")
+			fmt.Fprintf(&b, "    X-Pre-Int    = \"{{.request.%s_plain.preprocessor.rint}}\"\n    X-Pre-Str    = \"{{.request.%s_plain.preprocessor.rstr}}\"\n    X-Pre-Uuid   = \"{{.request.%s_plain.preprocessor.ruuid}}\"\n", p, p, p)
+		}
+		b.WriteString("  }\n")
+		extra := ""
+		if funcs {
+			extra = "      rint  = \"randInt(10, 20)\"\n      rstr  = \"randString(4, xy)\"\n      ruuid = \"uuid()\"\n"
+		}
+		fmt.Fprintf(&b, "  preprocessor {\n    mapping = {\n      first = \"source.users[0].name\"\n      last  = \"source.users[last].name\"\n      lastn = \"source.users[%d].name\"\n      rnd   = \"source.users[rand].name\"\n%s    }\n  }\n", rows-1, extra)
 		if plainPost {
 			b.WriteString("  postprocessor \"assert/response\" {\n    status_code = 200\n  }\n")
 		}
@@ -203,11 +235,22 @@ func runC15(r *R) {
 	}
 	invocations := ring * passes
 	plainPost := w.Draw(2) == 0
-	yaml, csv := c15YAML(scs, rows, plainPost)
+	// half of the runs use the documented randomisation functions (templates, preprocessor, a `variables` source);
+	// the list step names its templater now and then (text is the default; html renders the same text for the
+	// alphanumeric values used here)
+	funcs := w.Draw(2) == 0
+	listTempl := []string{"", "", "text", "html"}[w.Draw(4)]
+	if funcs {
+		r.Note("random-functions")
+	}
+	if listTempl != "" {
+		r.Note("templater:" + listTempl)
+	}
+	yaml, csv := c15YAML(scs, rows, plainPost, funcs, listTempl)
 	descFile := "/ammo/scenario.yaml"
 	if w.Draw(4) == 0 {
 		// the same description written in HCL
-		yaml = c15HCL(scs, rows, plainPost)
+		yaml = c15HCL(scs, rows, plainPost, funcs, listTempl)
 		descFile = "/ammo/scenario.hcl"
 		r.Note("description:hcl")
 	}
@@ -231,7 +274,7 @@ func runC15(r *R) {
 	}
 
 	var (
-		mu        sync.Mutex // nosim
+		mu        simrt.HMutex
 		auths     []c15Auth
 		listItems = map[int][]float64{} // arrival index of a list request -> the items it was answered with
 		listSeq   int
@@ -315,9 +358,29 @@ func runC15(r *R) {
 	if !longRing && w.Draw(6) == 0 {
 		cancelAt = time.Duration(1+w.Draw(1500)) * time.Millisecond
 	}
+	// gun diagnostics (one run in four): httptrace timings and dumps, the answer log, debug-level logging - none of
+	// them may change what is sent, in which order, or what is reported
+	gun := map[string]interface{}{"type": "http/scenario", "target": target}
+	debugLog := false
+	if w.Draw(4) == 0 {
+		tr, dump := w.Bool(), w.Bool()
+		gun["httptrace"] = map[string]interface{}{"trace": tr, "dump": dump}
+		diag := fmt.Sprintf("trace=%v dump=%v", tr, dump)
+		if fl := []string{"", "all", "warning", "error"}[w.Draw(4)]; fl != "" {
+			// (the answer log is a real file opened with os.Create: the null device)
+			gun["answlog"] = map[string]interface{}{"enabled": true, "path": "/dev/null", "filter": fl}
+			diag += " answlog=" + fl
+		}
+		if debugLog = w.Draw(2) == 0; debugLog {
+			diag += " log-level=debug"
+		}
+		r.Note("gun-diagnostics-on")
+		r.Sample(map[string]any{"scenarios": lines, "rows": rows, "instances": inst, "passes": passes, "invocations": invocations, "latency": lat.String(), "faults": fmt.Sprint(faultAt), "diagnostics": diag})
+	}
 	res := runHTTPPool(r, httpPoolSpec{
 		Ammo:      map[string]interface{}{"type": "http/scenario", "file": descFile, "limit": invocations},
-		Gun:       map[string]interface{}{"type": "http/scenario", "target": target},
+		Gun:       gun,
+		DebugLog:  debugLog,
 		CancelAt:  cancelAt,
 		Instances: inst, Tokens: invocations + 3,
 		Files: map[string][]byte{descFile: []byte(yaml), "/ammo/users.csv": []byte(csv)}, Horizon: 2 * time.Hour,
@@ -390,6 +453,8 @@ func runC15(r *R) {
 			failedSamples++
 		}
 	}
+	globFixed := map[string]string{} // header -> the value of the `variables` source seen first: it is computed once
+	seenUUID := map[string]bool{}
 	counts := make([]int, nsc)
 	executed := map[string]int{} // "<scenario>.<step>" -> executed ok
 	failedSteps := map[string]int{}
@@ -490,6 +555,12 @@ func runC15(r *R) {
 						r.Fail("variable-flow/source-index", "%s arrived with X-First=%q X-Last=%q X-LastN=%q X-Rand=%q; the data source has %d rows: want %s, %s, %s and one of its names", rq.URI, hv("X-First"), hv("X-Last"), hv("X-Lastn"), rnd, rows, first, last, last)
 						return
 					}
+					if funcs {
+						if bad := c15CheckFuncs(hv, globFixed, seenUUID); bad != "" {
+							r.Fail("functions/"+strings.SplitN(bad, ":", 2)[0], "%s: %s (documented: uuid = a random uuid v4; randInt = 0-9 without arguments, 0..n with one, between the two with two; randString(n, letters) = n characters out of letters; values of a `variables` source are computed once)", rq.URI, bad)
+							return
+						}
+					}
 				}
 				if in.kinds[j] == "list" {
 					if a := strings.Join(rq.Hdr["Authorization"], ","); a != "Bearer "+in.auth.Token {
@@ -500,6 +571,7 @@ func runC15(r *R) {
 			}
 		}
 	}
+	_ = globFixed
 	// order bodies: the item must be an element of the latest list response of the same invocation, and the
 	// [next] positions used across all orders of a scenario are consecutive (mod 3)
 	posCount := map[int][]int{}
@@ -633,4 +705,54 @@ func weightsOf(scs []c15Scenario) []int {
 		w = append(w, s.Weight)
 	}
 	return w
+}
+
+var uuidV4 = regexp.MustCompile(`^[0-9a-f]{8}-[0-9a-f]{4}-4[0-9a-f]{3}-[89ab][0-9a-f]{3}-[0-9a-f]{12}$`)
+
+// c15CheckFuncs judges the headers rendered from the randomisation functions against their documentation.
+func c15CheckFuncs(hv func(string) string, fixed map[string]string, seenUUID map[string]bool) string {
+	intIn := func(k string, lo, hi int64) string {
+		v, err := strconv.ParseInt(hv(k), 10, 64)
+		if err != nil || v < lo || v > hi {
+			return fmt.Sprintf("%s:%s arrived as %q, want an integer in %d..%d", strings.ToLower(k), k, hv(k), lo, hi)
+		}
+		return ""
+	}
+	strOf := func(k string, n int, letters string) string {
+		v := hv(k)
+		ok := len(v) == n
+		for _, c := range v {
+			ok = ok && strings.ContainsRune(letters, c)
+		}
+		if !ok {
+			return fmt.Sprintf("%s:%s arrived as %q, want %d characters out of %q", strings.ToLower(k), k, v, n, letters)
+		}
+		return ""
+	}
+	for _, k := range []string{"X-Uuid", "X-Pre-Uuid"} {
+		v := hv(k)
+		if !uuidV4.MatchString(v) {
+			return fmt.Sprintf("%s:%s arrived as %q, want a uuid v4", strings.ToLower(k), k, v)
+		}
+		if seenUUID[v] {
+			return fmt.Sprintf("%s-repeated:%s arrived as %q, which an earlier request of this run carried already", strings.ToLower(k), k, v)
+		}
+		seenUUID[v] = true
+	}
+	for _, c := range []string{intIn("X-Rand-Int", 100, 200), intIn("X-Rand-Int1", 0, 7), intIn("X-Rand-Int0", 0, 9), intIn("X-Rand-Src", 300, 500), intIn("X-Pre-Int", 10, 20), intIn("X-Glob-Fixed", 1000, 2000),
+		strOf("X-Rand-Str", 5, "abc"), strOf("X-Pre-Str", 4, "xy"), strOf("X-Glob-Pick", 6, "qrs")} {
+		if c != "" {
+			return c
+		}
+	}
+	if hv("X-Glob-Host") != "glob.example" {
+		return fmt.Sprintf("x-glob-host:X-Glob-Host arrived as %q, want the source's value glob.example", hv("X-Glob-Host"))
+	}
+	for _, k := range []string{"X-Glob-Fixed", "X-Glob-Pick"} {
+		if old, ok := fixed[k]; ok && old != hv(k) {
+			return fmt.Sprintf("%s-changed:%s arrived as %q, an earlier request of this run carried %q", strings.ToLower(k), k, hv(k), old)
+		}
+		fixed[k] = hv(k)
+	}
+	return ""
 }
